@@ -60,9 +60,10 @@ GROUPS = ["a", "B", "c c"]
 class Dataset:
     """Concrete events for the abstract events of a history group (identical for every layout of the dataset)."""
 
-    def __init__(self, classes, xtab, ttab, mult, mixed=False):
+    def __init__(self, classes, xtab, ttab, mult, mixed=False, mtab=None):
         self.classes = classes          # aid (1-based) -> class name
         self.mult, self.mixed = mult, mixed
+        self.has_m = mtab is not None
         self.events = {}                # aid -> [event dict]
         self.all = []
         n = 0
@@ -77,6 +78,11 @@ class Dataset:
                     e["f"] = cx[0] * 0.25 * (1 + j % 5)
                 if ct:
                     e["t"] = " ".join(ct)
+                if mtab is not None:
+                    # the measure of the spec (ClassM: value in halves, written as JSON float or integer): a numeric
+                    # column mixing integers and floats, integers arriving after the first float of a segment
+                    cm = mtab[cls]
+                    e["m"] = (cm["v"] / 2.0 + 3 * (j % 4)) if cm["f"] else (cm["v"] // 2 + 3 * (j % 4))
                 e["g"] = GROUPS[n % 3]
                 e["c"] = "c%05d" % n
                 e["k"] = n % 7                      # always present small int
@@ -204,6 +210,12 @@ def build_family(ds):
               "ref": "by_g_x" if full_x else None, "promote": False,
               "key": "stats_x_by_g" if full_x else "stats_by_group_over_column_missing_in_some_events"})
     Q.append({"name": "stats_filtered", "text": "k>2 | stats count, sum(k) by g", "kind": "stats", "ref": "filtered", "promote": False})
+    # pre-aggregated segment statistics used (match-all: canUseSSTForStats) vs not (a filter every event satisfies)
+    aggs5 = lambda col: "stats count(%s), sum(%s), avg(%s), min(%s), max(%s)" % ((col,) * 5)
+    for col in (["m"] if ds.has_m else []) + ["k"]:
+        Q.append({"name": "stats_%s_preagg" % col, "text": "* | " + aggs5(col), "kind": "stats", "ref": "all_" + col, "promote": False})
+        Q.append({"name": "stats_%s_raw" % col, "text": "k>=0 | " + aggs5(col), "kind": "stats", "ref": "all_" + col, "promote": False,
+                  "same_as": "stats_%s_preagg" % col})
     Q.append({"name": "stats_by_t", "text": "* | stats count by t", "kind": "stats", "ref": None, "promote": False,
               "key": "stats_by_group_over_column_missing_in_some_events" if lacks("t") else "stats_by_t"})
     Q.append({"name": "stats_by_c_prefix", "text": "k>2 | stats count by g, k", "kind": "stats", "ref": None, "promote": False})
@@ -220,6 +232,11 @@ def stats_ref(ds, which):
     evs = ds.all
     if which == "count":
         return {"*": {"count(*)": len(evs)}}
+    if which.startswith("all_"):
+        col = which[4:]
+        vals = [e[col] for e in evs]
+        return {"*": {"count(%s)" % col: len(vals), "sum(%s)" % col: sum(vals), "avg(%s)" % col: sum(vals) / len(vals),
+                      "min(%s)" % col: min(vals), "max(%s)" % col: max(vals)}}
     if which == "filtered":
         evs = [e for e in evs if e["k"] > 2]
     col = "x" if which == "by_g_x" else "k"
@@ -456,7 +473,7 @@ def plan_cases(chk, behs_enum, behs_sim, quick):
                 v["promote_after"] = firstflush
                 steps = pqs_steps(steps, firstflush)
             lays.append(dict(steps=steps, name="H%d" % i, spec_layout=b["steps"][-1]["obs"]["ix"]["lay"], **v))
-        cases.append(dict(idx=len(cases), classes=classes_of(picks[0]), x=picks[0]["x"], t=picks[0]["t"], mult=mult, mixed=mixed,
+        cases.append(dict(idx=len(cases), classes=classes_of(picks[0]), x=picks[0]["x"], t=picks[0]["t"], m=picks[0].get("m"), mult=mult, mixed=mixed,
                           layouts=lays, src="enum"))
     sims = [b for b in behs_sim if final_complete(b) and _nevents(b) >= 4]
     for ci, b in enumerate(vlib.sample(sims, n_sim, chk.seed)):
@@ -468,13 +485,13 @@ def plan_cases(chk, behs_enum, behs_sim, quick):
             if v["pqs"] and steps[-1]["act"]["a"] != "rotate":
                 steps.append({"act": {"a": "rotate"}})
             lays.append(dict(steps=steps, name="S%d" % i, spec_layout=b["steps"][-1]["obs"]["ix"]["lay"], **v))
-        cases.append(dict(idx=len(cases), classes=cl, x=b["x"], t=b["t"], mult=[150, 2, 1, 90][ci % 4], mixed=ci % 4 == 3, layouts=lays,
+        cases.append(dict(idx=len(cases), classes=cl, x=b["x"], t=b["t"], m=b.get("m"), mult=[150, 2, 1, 90][ci % 4], mixed=ci % 4 == 3, layouts=lays,
                           src="sim"))
     return cases
 
 
 def run_case(binary, case):
-    ds = Dataset({int(k): v for k, v in case["classes"].items()}, case["x"], case["t"], case["mult"], case["mixed"])
+    ds = Dataset({int(k): v for k, v in case["classes"].items()}, case["x"], case["t"], case["mult"], case["mixed"], case.get("m"))
     fam = build_family(ds)
     res = [run_layout(binary, ds, fam, lay) for lay in case["layouts"]]
     fails = []
@@ -500,6 +517,16 @@ def run_case(binary, case):
                     fails.append(("answer-differs:" + q.get("key", name), "query %r: layout [%s]%s answers %s, layout [%s] answers %s" % (
                         q["text"], describe_layout(lay), " (repeated execution)" if nm != name else "", short(got),
                         describe_layout(case["layouts"][0]), short(base["answers"][name])), li))
+    # two spellings of the same aggregate on the same layout: answered from the segment statistics vs from the records
+    for q in fam:
+        other = q.get("same_as")
+        if not other:
+            continue
+        for li, (lay, r) in enumerate(zip(case["layouts"], res)):
+            a, b = r["answers"].get(q["name"]), r["answers"].get(other)
+            if a is not None and b is not None and not close_enough(a, b):
+                fails.append(("preagg-vs-raw:" + other, "layout [%s]: %r answers %s but %r answers %s" % (
+                    describe_layout(lay), qby[other]["text"], short(b), q["text"], short(a)), li))
     return {"fails": fails, "nq": sum(len(r["answers"]) for r in res), "family": len(fam),
             "info": [r["info"] for r in res], "events": len(ds.all)}
 
